@@ -382,5 +382,5 @@ func (in *Interp) installConcStubs() {
 }
 
 func isNoopPkg(path string) bool {
-	return strings.HasPrefix(path, "github.com/rs/zerolog") || strings.HasPrefix(path, "github.com/blevesearch/") || path == "time" || path == "log"
+	return strings.HasPrefix(path, "github.com/rs/zerolog") || strings.HasPrefix(path, "github.com/blevesearch/") || strings.HasPrefix(path, "github.com/prometheus/") || path == "time" || path == "log"
 }
